@@ -25,7 +25,7 @@ EXPLANATION = (
     "normalised by inlining local aliases and one-line private helpers: "
     "R1 the caller's arrays never escape into the object by reference (only element stores into a buffer this class "
     "allocated); R2 on every non-raising path of update() (symbolic execution of the row counter along each path) exactly one time "
-    "is appended, exactly one row is stored at the pre-update counter and the counter ends one higher; R3 a path that found the "
+    "is appended, exactly one row is stored at the pre-update counter and the counter ends one higher, and an update that is refused by an explicit raise has changed neither times, rows nor counter; R3 a path that found the "
     "buffer full reaches the row store only through _grow(), _grow() is reached only when the history is growable, a full bounded "
     "history has a raising path, and the flag is true exactly when max_steps is None; R4 _grow() enlarges by an integer factor >= 2, "
     "copies the valid rows before re-binding and keeps dtype/trailing shape; R5 __call__ clamps with the recorded first/"
